@@ -128,4 +128,4 @@ def harnesses(tier, seed):
     for h in hs:
         # the only instances of these hand-written blocks: take them before the many sync-macro ones
         h.priority = h.core and h.shape.get("block") in ("fir", "audecode-data")
-    return select(hs, tier, seed, 4, budget=2600)
+    return select(hs, tier, seed, 4, budget=2000)
